@@ -20,7 +20,8 @@ CH_ARTS = [("A", "A", None, None), ("A", "B", "1", None)]
 CHAPTERS = [("C", ct, tuple(arts)) for ct in ("", "Kapitel Ä")
             for arts in ([()] + [(a,) for a in CH_ARTS] + [(a, b) for a in CH_ARTS for b in CH_ARTS])]
 ITEMS = ARTICLES + CHAPTERS
-FIELDSETS = [(t, s, e) for t in (None, "T ü") for s in (None, "sub") for e in (None, "ed")]
+LICENSE = {"name": "L", "mw_rights_text": "free", "mw_rights_url": "http://l.example/", "z": {"b": 1, "a": 2}}
+FIELDSETS = [(t, s, e) for t in (None, "T ü") for s in (None, "sub") for e in (None, "ed", ("lic", "ed"))]
 COORDS = {"base_url": "http://wiki.example/w/", "script_extension": ".php", "login_credentials": "u:p:d"}
 
 
@@ -42,7 +43,11 @@ def build(spec):
         c.title = t
     if s is not None:
         c.subtitle = s
-    if e is not None:
+    if isinstance(e, tuple):
+        # an untyped (plain dict) entry nested in the metabook, as MediaWiki's Collection extension sends for licenses
+        c.licenses.append(dict(LICENSE))
+        c.editor = e[1]
+    elif e is not None:
         c.editor = e
     return c
 
@@ -83,7 +88,7 @@ class C13(InputProp):
         if tier == "quick":
             self.space = Concat(small, name="mb")
         else:
-            big = Product(Seqs(ITEMS, 3, minlen=3), [(None, None, None)], name="three-items")
+            big = Product(Seqs(ITEMS, 3, minlen=3), [(None, None, None), (None, None, ("lic", "ed"))], name="three-items")
             self.space = Concat(small, big, name="mb")
 
     def cid(self, params, which="nserve"):
